@@ -11,7 +11,8 @@
 //   M1  each of merge_so_instance_type, merge_so_format, merge_so_number, merge_so_string,
 //       merge_so_array, merge_so_object and merge_so_enum_values is called exactly once, with
 //       (keyword of a, keyword of b) -- for enum values: (a.enum, a.const, b.enum, b.const) --
-//       identified by ADDRESS inside the two operands
+//       identified by ADDRESS inside the two operands, or else by VALUE (every keyword differs
+//       between the two operands), so that handing over a clone is not reported
 //   M2  the merged body handed to try_merge_with_subschemas carries exactly what the leaf
 //       merges returned (format is marked), and both operands' subschemas are handed to
 //       try_merge_with_subschemas, a's first. (The stub ends the merge at the second call:
@@ -30,8 +31,18 @@ static mut FIRST_SUBSCHEMAS_OK: bool = false;
 static mut SECOND_SUBSCHEMAS_OK: bool = false;
 static mut BODY_OK: bool = false;
 
+static mut A_PTR: *const SchemaObject = core::ptr::null();
+static mut B_PTR: *const SchemaObject = core::ptr::null();
+
 fn addr<T>(x: Option<&T>) -> usize {
     x.map_or(0, |p| p as *const T as usize)
+}
+
+/// the callee was handed THIS keyword of the operand: the very object (by address -- the only
+/// case met on the unchanged tree), or an equal value (so that passing a clone, a harmless
+/// refactoring, is not reported)
+fn same<T: PartialEq>(got: Option<&T>, want_addr: usize, want: Option<&T>) -> bool {
+    addr(got) == want_addr || (got.is_some() && got == want)
 }
 
 fn stub_instance_type(
@@ -40,7 +51,7 @@ fn stub_instance_type(
 ) -> Result<Option<SingleOrVec<InstanceType>>, ()> {
     unsafe {
         CALLS[0] += 1;
-        OK_ARGS[0] = addr(a) == A_ADDR[0] && addr(b) == B_ADDR[0];
+        OK_ARGS[0] = same(a, A_ADDR[0], (*A_PTR).instance_type.as_ref()) && same(b, B_ADDR[0], (*B_PTR).instance_type.as_ref());
     }
     Ok(None)
 }
@@ -48,7 +59,7 @@ fn stub_instance_type(
 fn stub_format(a: Option<&String>, b: Option<&String>) -> Result<Option<String>, ()> {
     unsafe {
         CALLS[1] += 1;
-        OK_ARGS[1] = addr(a) == A_ADDR[1] && addr(b) == B_ADDR[1];
+        OK_ARGS[1] = same(a, A_ADDR[1], (*A_PTR).format.as_ref()) && same(b, B_ADDR[1], (*B_PTR).format.as_ref());
     }
     Ok(Some(String::from("MARK")))
 }
@@ -59,7 +70,7 @@ fn stub_number(
 ) -> Result<Option<Box<NumberValidation>>, ()> {
     unsafe {
         CALLS[2] += 1;
-        OK_ARGS[2] = addr(a) == A_ADDR[2] && addr(b) == B_ADDR[2];
+        OK_ARGS[2] = same(a, A_ADDR[2], (*A_PTR).number.as_deref()) && same(b, B_ADDR[2], (*B_PTR).number.as_deref());
     }
     Ok(None)
 }
@@ -70,7 +81,7 @@ fn stub_string(
 ) -> Result<Option<Box<StringValidation>>, ()> {
     unsafe {
         CALLS[3] += 1;
-        OK_ARGS[3] = addr(a) == A_ADDR[3] && addr(b) == B_ADDR[3];
+        OK_ARGS[3] = same(a, A_ADDR[3], (*A_PTR).string.as_deref()) && same(b, B_ADDR[3], (*B_PTR).string.as_deref());
     }
     Ok(None)
 }
@@ -82,7 +93,7 @@ fn stub_array(
 ) -> Result<Option<Box<ArrayValidation>>, ()> {
     unsafe {
         CALLS[4] += 1;
-        OK_ARGS[4] = addr(a) == A_ADDR[4] && addr(b) == B_ADDR[4];
+        OK_ARGS[4] = same(a, A_ADDR[4], (*A_PTR).array.as_deref()) && same(b, B_ADDR[4], (*B_PTR).array.as_deref());
     }
     Ok(None)
 }
@@ -94,7 +105,7 @@ fn stub_object(
 ) -> Result<Option<Box<ObjectValidation>>, ()> {
     unsafe {
         CALLS[5] += 1;
-        OK_ARGS[5] = addr(a) == A_ADDR[5] && addr(b) == B_ADDR[5];
+        OK_ARGS[5] = same(a, A_ADDR[5], (*A_PTR).object.as_deref()) && same(b, B_ADDR[5], (*B_PTR).object.as_deref());
     }
     Ok(None)
 }
@@ -107,10 +118,10 @@ fn stub_enum_values(
 ) -> Result<Option<Vec<serde_json::Value>>, ()> {
     unsafe {
         CALLS[6] += 1;
-        OK_ARGS[6] = addr(a_enum) == A_ADDR[6]
-            && addr(a_const) == A_ADDR[7]
-            && addr(b_enum) == B_ADDR[6]
-            && addr(b_const) == B_ADDR[7];
+        OK_ARGS[6] = same(a_enum, A_ADDR[6], (*A_PTR).enum_values.as_ref())
+            && same(a_const, A_ADDR[7], (*A_PTR).const_value.as_ref())
+            && same(b_enum, B_ADDR[6], (*B_PTR).enum_values.as_ref())
+            && same(b_const, B_ADDR[7], (*B_PTR).const_value.as_ref());
     }
     Ok(None)
 }
@@ -123,7 +134,7 @@ fn stub_with_subschemas(
     unsafe {
         CALLS[7] += 1;
         if CALLS[7] == 1 {
-            FIRST_SUBSCHEMAS_OK = addr(maybe_subschemas) == A_ADDR[8];
+            FIRST_SUBSCHEMAS_OK = same(maybe_subschemas, A_ADDR[8], (*A_PTR).subschemas.as_deref());
             BODY_OK = schema_object.format.as_deref() == Some("MARK")
                 && schema_object.instance_type.is_none()
                 && schema_object.number.is_none()
@@ -140,29 +151,36 @@ fn stub_with_subschemas(
             // `assert_ne!` against the `false` schema and the enum-value filter) drops
             // whole SchemaObjects, whose recursive serde_json::Value drop glue CBMC does
             // not finish unwinding -- and it is not part of the routing contract
-            SECOND_SUBSCHEMAS_OK = addr(maybe_subschemas) == B_ADDR[8];
+            SECOND_SUBSCHEMAS_OK = same(maybe_subschemas, B_ADDR[8], (*B_PTR).subschemas.as_deref());
             core::mem::forget(schema_object);
             Err(())
         }
     }
 }
 
+/// every keyword differs between the two operands (tag 1 / tag 2), so that a keyword can also
+/// be recognised by VALUE
 fn operand(tag: u32) -> SchemaObject {
+    let first = tag == 1;
     SchemaObject {
         metadata: None,
-        instance_type: Some(SingleOrVec::Single(Box::new(InstanceType::String))),
-        format: Some(String::from("f")),
-        enum_values: Some(vec![serde_json::Value::Null]),
-        const_value: Some(serde_json::Value::Bool(tag == 1)),
-        subschemas: Some(Box::new(SubschemaValidation::default())),
-        number: Some(Box::new(NumberValidation::default())),
+        instance_type: Some(SingleOrVec::Single(Box::new(if first { InstanceType::String } else { InstanceType::Integer }))),
+        format: Some(String::from(if first { "fa" } else { "fb" })),
+        enum_values: Some(vec![if first { serde_json::Value::Null } else { serde_json::Value::Bool(true) }]),
+        const_value: Some(serde_json::Value::Bool(first)),
+        subschemas: Some(Box::new(SubschemaValidation {
+            all_of: if first { Some(Vec::new()) } else { None },
+            any_of: if first { None } else { Some(Vec::new()) },
+            ..Default::default()
+        })),
+        number: Some(Box::new(NumberValidation { multiple_of: Some(tag as f64), ..Default::default() })),
         string: Some(Box::new(StringValidation {
             max_length: Some(tag),
             min_length: None,
             pattern: None,
         })),
-        array: Some(Box::new(ArrayValidation::default())),
-        object: Some(Box::new(ObjectValidation::default())),
+        array: Some(Box::new(ArrayValidation { max_items: Some(tag), ..Default::default() })),
+        object: Some(Box::new(ObjectValidation { max_properties: Some(tag), ..Default::default() })),
         reference: None,
         extensions: Default::default(),
     }
@@ -205,6 +223,8 @@ stubs! {
         unsafe {
             A_ADDR = addresses(&a);
             B_ADDR = addresses(&b);
+            A_PTR = &a;
+            B_PTR = &b;
         }
         let defs: BTreeMap<RefKey, Schema> = BTreeMap::new();
         let r = merge_schema_object(&a, &b, &defs);
@@ -242,6 +262,12 @@ stubs! {
     fn canary_c09_routing() {
         let a = operand(1);
         let b = operand(2);
+        unsafe {
+            A_ADDR = addresses(&a);
+            B_ADDR = addresses(&b);
+            A_PTR = &a;
+            B_PTR = &b;
+        }
         let defs: BTreeMap<RefKey, Schema> = BTreeMap::new();
         let r = merge_schema_object(&a, &b, &defs);
         unsafe {
